@@ -1,6 +1,6 @@
 /-
-C18 CODE MODEL: the five validators of txdbus/marshal.py (lines 136-250) as the code is
-written, after repair C18-01: each validator is its sequence of checks in the code's order
+C18 CODE MODEL: the five validators of txdbus/marshal.py (validateObjectPath ... validateMemberName)
+as the code is written, after repairs C18-01 (/repo 1c17e0c) and C18-02 (/repo 2befdc5): each validator is its sequence of checks in the code's order
 over `List Char`; a check that fires raises.  The character classes come from the generated
 table `Gen/Validators.lean` (translated from the compiled regular expressions).
 
@@ -92,7 +92,7 @@ def exceptAsMarshalling (body : Except PyErr Unit) : Outcome :=
   | .ok () => .accept
   | .error _ => .raised .marshallingError
 
-/-! ### validateObjectPath (marshal.py:136-151) -/
+/-! ### validateObjectPath -/
 
 def validateObjectPath (p : Str) : Outcome :=
   -- if not p.startswith('/'): raise MarshallingError
@@ -105,7 +105,7 @@ def validateObjectPath (p : Str) : Outcome :=
   else if searchOutside Gen.Validators.objPathAllowed p then .raised .marshallingError
   else .accept
 
-/-! ### validateInterfaceName (marshal.py:154-182, with the end-of-name check of repair C18-01) -/
+/-! ### validateInterfaceName (with the end-of-name check of repair C18-01) -/
 
 def interfaceNameChecks (na : Char → Bool) (n : Str) : Except PyErr Unit :=
   check (.ok (!n.contains '.')) <|                          -- if '.' not in n
@@ -121,7 +121,7 @@ def interfaceNameChecks (na : Char → Bool) (n : Str) : Except PyErr Unit :=
 def validateInterfaceName (na : Char → Bool) (n : Str) : Outcome :=
   exceptAsMarshalling (interfaceNameChecks na n)
 
-/-! ### validateErrorName (marshal.py:185-189)
+/-! ### validateErrorName
 
 `try: validateInterfaceName(n) except MarshallingError as e: raise MarshallingError(...)`:
 only a MarshallingError is caught and re-raised (with "interface" replaced in the text);
@@ -133,18 +133,18 @@ def validateErrorName (na : Char → Bool) (n : Str) : Outcome :=
   | .raised .marshallingError => .raised .marshallingError
   | .raised e => .raised e
 
-/-! ### validateBusName (marshal.py:192-226, with the three checks of repair C18-01) -/
+/-! ### validateBusName (with the three checks of repair C18-02) -/
 
 def busNameChecks (na : Char → Bool) (n : Str) : Except PyErr Unit :=
   check (.ok (!n.contains '.')) <|                          -- if '.' not in n
   check (.ok (containsDouble '.' n)) <|                     -- if '..' in n
   check (.ok (decide (n.length > 255))) <|                  -- if len(n) > 255
   check ((idx0 n).map (· == '.')) <|                        -- if n[0] == '.'
-  check ((idxLast n).map (· == '.')) <|                     -- if n[-1] == '.'            (C18-01)
+  check ((idxLast n).map (· == '.')) <|                     -- if n[-1] == '.'            (C18-02)
   check ((idx0 n).map (pyIsDigit na)) <|                    -- if n[0].isdigit()
   check (.ok (searchOutside Gen.Validators.busAllowed n)) <|     -- if bus_re.search(n)
-  check (.ok ((n.drop 1).contains ':')) <|                  -- if ':' in n[1:]            (C18-01)
-  check (.ok ([':', '.'].isPrefixOf n)) <|                  -- if n.startswith(':.')      (C18-01)
+  check (.ok ((n.drop 1).contains ':')) <|                  -- if ':' in n[1:]            (C18-02)
+  check (.ok ([':', '.'].isPrefixOf n)) <|                  -- if n.startswith(':.')      (C18-02)
   -- if not n[0] == ':' and dot_digit_re.search(n)
   check ((idx0 n).map fun c0 => !(c0 == ':') && searchDotDigit n) <|
   .ok ()
@@ -152,7 +152,7 @@ def busNameChecks (na : Char → Bool) (n : Str) : Except PyErr Unit :=
 def validateBusName (na : Char → Bool) (n : Str) : Outcome :=
   exceptAsMarshalling (busNameChecks na n)
 
-/-! ### validateMemberName (marshal.py:229-248) -/
+/-! ### validateMemberName -/
 
 def memberNameChecks (na : Char → Bool) (n : Str) : Except PyErr Unit :=
   check (.ok (decide (n.length < 1))) <|                    -- if len(n) < 1
